@@ -36,6 +36,10 @@ type c20Case struct {
 	// Resend: after the Send with the scripted failures, the same messages are sent again on a fresh connection to
 	// a server that accepts everything; the verdict must then be that of the second call
 	Resend bool `json:"resend,omitempty"`
+	// Pool: the messages are sent with SendWithSMTPClient on a connection obtained from DialToSMTPClientWithContext;
+	// AFTER that dial the same Client dialled a second connection to a server that advertises the OPPOSITE of ESC
+	// (a Client that keeps several connections): what is reported must follow the connection the message was sent on
+	Pool bool `json:"pool,omitempty"`
 }
 
 var c20TextNames = []string{"esc-at-start", "plain", "triple-inside", "multiline-esc", "esc-not-at-start", "esc-then-percent-verbs", "bare-esc-without-text", "esc-and-one-character"}
@@ -154,7 +158,15 @@ func c20Exec(r *vf.Run, k c20Case) (keys, whats []string) {
 		}
 	}
 	conn := refsmtp.NewConn(sess)
+	otherCaps := []string{"8BITMIME"}
+	if !k.ESC {
+		otherCaps = append(otherCaps, "ENHANCEDSTATUSCODES")
+	}
+	other := refsmtp.NewConn(&refsmtp.Session{Host: hx.Host, Caps: otherCaps})
 	rig := &hx.Rig{Mk: func(n int) *refsmtp.Conn {
+		if n == 1 && k.Pool {
+			return other
+		}
 		if n > 0 {
 			return nil
 		}
@@ -171,6 +183,23 @@ func c20Exec(r *vf.Run, k c20Case) (keys, whats []string) {
 	}
 	var sendErr error
 	pan, pw := vf.Guard(func() {
+		if k.Pool {
+			first, err := cl.DialToSMTPClientWithContext(context.Background())
+			if err != nil {
+				r.HarnessError("C20 dial failed on the all-success prefix: %v", err)
+				return
+			}
+			second, err := cl.DialToSMTPClientWithContext(context.Background())
+			if err != nil {
+				r.HarnessError("C20 second dial failed: %v", err)
+				return
+			}
+			sendErr = cl.SendWithSMTPClient(first, msgs...)
+			_ = cl.CloseWithSMTPClient(first)
+			_ = cl.CloseWithSMTPClient(second)
+			r.Outcome("reached/sent-on-the-first-of-two-connections")
+			return
+		}
 		if err := cl.DialWithContext(context.Background()); err != nil {
 			r.HarnessError("C20 dial failed on the all-success prefix: %v", err)
 			return
@@ -344,7 +373,7 @@ func init() {
 	vf.Register(&vf.Check{
 		ID: "C20", Title: "SendError reflects the server's verdict",
 		Run: func(r *vf.Run) {
-			r.SetRule("every reply code 400..599 × 8 reply-text kinds (enhanced code at start / plain / dotted triple inside / multi-line / enhanced code not at start / text with '%' format verbs / the bare enhanced code without any text / the enhanced code and one character; enhanced codes with every subject/detail field of 1..3 digits from {0,1,7,10,77,100,255|509,999}) × position {MAIL, every non-empty subset of 3 RCPTs (mixed codes), DATA, end-of-data, RSET} × failing message 1..3 of a batch of 3 × ENHANCEDSTATUSCODES advertised or not, plus all pairs of failing messages; the oracle is a reference function of the replies the server actually sent; distinct by case tuple")
+			r.SetRule("every reply code 400..599 × 8 reply-text kinds (enhanced code at start / plain / dotted triple inside / multi-line / enhanced code not at start / text with '%' format verbs / the bare enhanced code without any text / the enhanced code and one character; enhanced codes with every subject/detail field of 1..3 digits from {0,1,7,10,77,100,255|509,999}) × position {MAIL, every non-empty subset of 3 RCPTs (mixed codes), DATA, end-of-data, RSET} × failing message 1..3 of a batch of 3 × ENHANCEDSTATUSCODES advertised or not, plus all pairs of failing messages; plus the same failures on the first of two connections of one Client (connection-per-caller API) whose servers differ in ENHANCEDSTATUSCODES; the oracle is a reference function of the replies the server actually sent; distinct by case tuple")
 			r.Assume("the list of rejected recipients is read from SendError.Error() (no exported accessor)", "a message whose delivery succeeded but whose trailing RSET failed counts as delivered")
 			var cases []c20Case
 			codes := []int{}
@@ -385,6 +414,16 @@ func init() {
 								for _, text := range []int{0, 3, 6, 7} {
 									cases = append(cases, c20Case{ESC: esc, M: 3, R: 3, Fails: []c20Fail{{Msg: (sub + det) % 3, Pos: pos, Mask: 1 + (sub+det)%7, Code: code, Text: text, SD: fmt.Sprintf("%d.%d", sub, det)}}})
 								}
+							}
+						}
+					}
+				}
+				// a Client with two connections whose servers differ in ENHANCEDSTATUSCODES: the message fails on the first
+				for _, code := range []int{421, 450, 550, 554} {
+					for _, pos := range []string{"MAIL", "RCPT", "DATA", "EOD", "RSET"} {
+						for msg := 0; msg < 3; msg++ {
+							for _, text := range []int{0, 1, 3} {
+								cases = append(cases, c20Case{ESC: esc, M: 3, R: 3, Pool: true, Fails: []c20Fail{{Msg: msg, Pos: pos, Mask: 1 + (code+msg)%7, Code: code, Text: text}}})
 							}
 						}
 					}
@@ -451,7 +490,7 @@ func init() {
 					})
 				}
 			})
-			r.Reached("reached/resend-committed-all")
+			r.Reached("reached/resend-committed-all", "reached/sent-on-the-first-of-two-connections")
 			for _, n := range c20TextNames {
 				r.Reached("reached/text-kind/" + n)
 			}
